@@ -50,6 +50,12 @@ type Chan struct {
 	fired    bool
 }
 
+// UnsafeSlicePtr is unsafe.Pointer(&s[i]): the element pointer plus the rest of the slice.
+type UnsafeSlicePtr struct {
+	tail []Value
+	elem *Value
+}
+
 // Poison marks a value that package init could not compute.
 type Poison struct{ why string }
 
